@@ -97,6 +97,24 @@ CLAIMED = {
                 "(first sight of a value always passes).",
         "technique": "Coq proof (world/ghost invariant; counter = number of open entries per value) + correspondence by vm_compute",
     },
+    "C07": {
+        "text": "Theorems (Props/C07.v): a reference pacer (state = scheduled time of the last admission) for "
+                "which, for all arrival times, costs and queue limits, consecutive admissions are at least the "
+                "later one's cost apart, an admitted request waits 0 or exactly until previous+cost and then "
+                "within the queue limit, and a request is rejected iff it would have to wait longer (rejection "
+                "leaves the schedule unchanged); and refinement theorems: the model of the flow "
+                "ThrottlingChecker + flow slot (nanosecond clock, float cost computed with Flocq binary64) and "
+                "the model of the hotspot ThrottlingChecker + hotspot slot (millisecond clock, per value, strict "
+                "limit) answer every history exactly as the pacer prescribes AND the clock when build returns "
+                "equals the scheduled time (the caller was held). Both models are compared bit-for-bit with the "
+                "crate on the virtual clock and the predicates are evaluated on implementation traces.",
+        "design_ref": "DESIGN.md §6 C07, Appendix A.4",
+        "note": "Trusted: Coq kernel + VM; stdlib classical axioms via Flocq for the flow theorem; the virtual "
+                "clock hook replaces thread::sleep (real sleep accuracy is OS behaviour, outside the model); "
+                "hotspot cost round(batch*D/q) modelled as exact integer rounding (trusted, exercised); "
+                "i64 overflow of last+interval is an explicit panic outcome excluded by hypothesis.",
+        "technique": "Coq proof (reference pacer laws + refinement by induction over the history) + bit-exact correspondence by vm_compute",
+    },
 }
 
 REASON_TODO = "not yet covered by the Coq development in this revision (planned, see DESIGN.md §6); no check is claimed"
